@@ -48,6 +48,10 @@ MANIFEST = {
 
 
 def run(ctx):
+    from rules.common import check_sentinel_default as _csd
+    for _c in SUBJECTS:
+        for _m in ('getlist', 'pop', 'popall', 'poplast'):
+            _csd(ctx, ctx.program, ctx.program.func(_c + '.' + _m), recv=ctx.program.cls(_c))
     from rules.common import require_fields
     require_fields(ctx.program, 'dictutils.OrderedMultiDict', ['_map', 'root'])
     require_fields(ctx.program, 'urlutils.OrderedMultiDict', ['_map', 'root'])
@@ -71,6 +75,18 @@ def run(ctx):
             ctx.unknown('T27', eq.fq, 'no isinstance(other, %s) branch found' % cname, eq.loc)
         else:
             onepass.pair_view(ctx, eq, branch[0].body, ['self', eq.params[1]], 'comparison of two %ss' % cname)
+        # T19p: a bulk mutator uses every source it accepts (a parameter that is never read is a silently dropped source)
+        for mname in ('update', 'update_extend', 'addlist', 'fromkeys', '__init__'):
+            mf = prog.func(cls + '.' + mname)
+            a_ = mf.node.args
+            pnames = [x.arg for x in a_.posonlyargs + a_.args + a_.kwonlyargs] + ([a_.vararg.arg] if a_.vararg else []) + \
+                ([a_.kwarg.arg] if a_.kwarg else [])
+            used = {n.id for n in ast.walk(mf.node) if isinstance(n, ast.Name) and isinstance(n.ctx, ast.Load)}
+            for pn in pnames:
+                if pn in ('self', 'cls') or pn.startswith('_'):
+                    continue
+                ctx.ob('T19p', mf.fq, 'parameter `%s` is read by the method (no source of pairs is accepted and silently dropped)' % pn,
+                       pn in used, loc=mf.loc)
         # T29: a padding value used while comparing two pair sequences must not be able to equal a real pair: it is built
         # from a unique sentinel object, never from literals ((None, None) is a legal pair)
         for n in ast.walk(eq.node):
